@@ -185,7 +185,15 @@ def replay(desc, col):
 REGISTER = True
 QUICK_BUDGET_S = 600
 THOROUGH_BUDGET_S = 3000
-MUTANTS = []
+MUTANTS = [
+    {"what": "run_model: Total latency not multiplied by n_instances", "caught": True, "how": "instances:LATENCY:latency"},
+    {"what": "run_model: Total leak_energy not multiplied by n_instances", "caught": True, "how": "instances:ENERGY:energy"},
+    {"what": "pareto.makepareto: a float column varying by < 1e-3 (absolute) is treated as constant", "caught": True,
+     "how": "energy:ENERGY:energy (k=1e-6) and throughput:LATENCY:latency (k=1e6)"},
+    {"what": "run_model: overall latency floored at one cycle, max_nonzero(1, ...)", "caught": True, "how": "throughput:LATENCY:latency, throughput:ENERGY|LATENCY:latency"},
+    {"what": "fast_pareto: block_mins sentinel 1e30 -> 1e3 (planned in DESIGN)", "caught": False,
+     "note": "equivalent mutant: a too-small block minimum only disables the block-skip shortcut, results are unchanged"},
+]
 MANIFEST = {
     "level_text": "Metamorphic testing of map_workload_to_arch: a generated small spec and its transform (all energies and leak x k; all throughputs x k; workload / every Einsum / one Einsum n_instances x j) are both mapped and the optima must obey the scaling law (x k, / k, x j, x j^2 for EDP; two-sided optimality bound for one-Einsum scaling), with identical feasibility and unchanged usage of an unchanged mapping. No counterexample in N pairs; not a proof.",
     "level_note": "k in {2,0.5,8,1024,3,0.1,1e6,1e-6}, j in {2,3,4}; 1-2 Einsums, 2-3 memory levels, rank bounds <= 6; zero tolerances; rel 1e-5 (1e-4 for |log10 k| >= 6).",
